@@ -18,8 +18,8 @@ from ..ragsim.syntax import analyse
 
 # runs = number of generated programs; k = compared schedules per program
 TIERS = {
-    "quick": {"C06": {"runs": 12000, "k": 3}, "C10": {"runs": 12000, "k": 4}, "C19": {"runs": 14000, "k": 1}},
-    "thorough": {"C06": {"runs": 300000, "k": 8}, "C10": {"runs": 300000, "k": 10}, "C19": {"runs": 400000, "k": 2}},
+    "quick": {"C06": {"runs": 30000, "k": 3}, "C10": {"runs": 30000, "k": 4}, "C19": {"runs": 30000, "k": 1}},
+    "thorough": {"C06": {"runs": 600000, "k": 8}, "C10": {"runs": 600000, "k": 10}, "C19": {"runs": 800000, "k": 2}},
 }
 HAZARD_EVERY = 7          # C10: every 7th run is a hazard program (stale-alias stream)
 MAX_RAW_PER_CHUNK = 12
@@ -50,8 +50,16 @@ def mixed_schedule(rng, lay):
     return {"eager": False, "acts": a}
 
 
-def one_run(prop, seed, i, k, acc):
-    hazard_stream = prop == "C19" or (prop == "C10" and i % HAZARD_EVERY == HAZARD_EVERY - 1)
+def one_run(prop, seed, i, k, acc, r01_open=False):
+    # Two program streams.  "hf": programs in which no write goes through an array while an unread selection of
+    # it is alive (the generator reads the selection first); "hz": writes are placed freely and biased towards
+    # exactly that situation.  While the stale-alias finding R01 was open, "hz" divergences of C10 were attributed
+    # to it by the hazard/taint rule and C06 explored "hf" only; since its repair (r01_open is False) both streams
+    # are explored by all three checks and every divergence is a violation.
+    if r01_open:
+        hazard_stream = prop == "C19" or (prop == "C10" and i % HAZARD_EVERY == HAZARD_EVERY - 1)
+    else:
+        hazard_stream = prop == "C19" or i % 2 == 1
     stream = "hz" if hazard_stream else "hf"
     rng = rng_for(seed, "rag", stream, i)
     prog, meta, g = gen.generate(rng, hazard_free=not hazard_stream)
@@ -80,7 +88,7 @@ def one_run(prop, seed, i, k, acc):
     if ref is not None:
         syn = analyse(prog, ref.out)
         if syn.hazard_steps:
-            if not hazard_stream:
+            if not hazard_stream and r01_open:
                 acc["skipped_hazard_in_hf_stream"] += 1
                 return
             acc["hazard_programs"] += 1
@@ -116,9 +124,9 @@ def one_run(prop, seed, i, k, acc):
             neutralise_text({"program": prog, "a": sa, "b": sb}, ea, eb)
         d = first_divergence(ea, eb)
         if d is not None:
-            case = make_case(prop, prog, sa, sb, hazard_free=not hazard_stream,
+            case = make_case(prop, prog, sa, sb, hazard_free=(r01_open and not hazard_stream),
                              origin={"seed": seed, "stream": stream, "index": i})
-            if prop == "C10" and hazard_stream and explained_by_stale_alias(case, ea, eb):
+            if r01_open and prop == "C10" and hazard_stream and explained_by_stale_alias(case, ea, eb):
                 acc["stale_alias_divergences"] += 1
                 continue
             acc["divergences"] += 1
@@ -165,7 +173,7 @@ def explore_chunk(lo, hi, payload):
         for i in range(lo, hi):
             pool.set_run_alarm(60)
             try:
-                one_run(prop, seed, i, k, acc)
+                one_run(prop, seed, i, k, acc, payload.get("r01_open", False))
             finally:
                 pool.clear_run_alarm()
     finally:
@@ -205,12 +213,12 @@ ASSUMPTIONS = {
     "C06": ["sampling, not enumeration: a clean batch is evidence, not proof",
             "differential oracle: the eager schedule's arrays are rebuilt with RaggedArray(v.ravel().copy(), "
             "v.lengths.copy()); an error common to fresh and derived arrays is invisible (that is C02's territory)",
-            "programs are hazard-free (no write through a source while an unread selection of it is alive): the "
-            "stale-alias finding R1 belongs to C10",
+            "half of the programs place writes freely, including writes through an array while an unread selection of "
+            "it is alive (possible since the stale-alias finding R01 was repaired)",
             "numpy is real and trusted; only raised/returned is compared for failing steps, not exception types"],
     "C10": ["sampling, not enumeration", "observers are the read-only operations listed in the property; their "
-            "results are dropped", "hazard programs (every 7th run) are attributed to known finding R1 only if every "
-            "diverging observation is tainted by a variable exposed at a hazard write",
+            "results are dropped", "half of the programs place writes freely, including writes through an array while an "
+            "unread selection of it is alive; nothing is attributed to a known finding any more (R01 is repaired)",
             "numpy is real and trusted"],
     "C19": ["sampling, not enumeration", "both configurations are set before the first array of an execution exists; "
             "switching the width while arrays are alive is outside the property",
@@ -240,9 +248,14 @@ def main(prop, tier, runs=None, k=None, write=True):
         cfg["runs"] = runs
     if k:
         cfg["k"] = k
-    payload = {"prop": prop, "seed": seed, "k": cfg["k"]}
+    r01_open = any(f["id"] == "R01" for f in evidence.open_findings("C10"))
+    payload = {"prop": prop, "seed": seed, "k": cfg["k"], "r01_open": r01_open}
     results = pool.run_chunks(explore_chunk, cfg["runs"], payload)
     tot, sets, lists = merge(results)
+    if len(sets["__distinct_nontrivial__"]) < 2:
+        # e.g. a tree in which every selection raises: all histories are trivially equal.  That is not "held".
+        raise pool.HarnessFailure("vacuous exploration: the scheduler never changed the hidden state of any array "
+                                  "(no non-trivial case) - the workload does not reach the behaviour under test")
     digest = hashlib.sha256("".join(lists["__digests__"]).encode()).hexdigest()[:32]
 
     # known findings: replay stored witnesses; a finding is reported while its witness still fails or while
@@ -296,8 +309,8 @@ def main(prop, tier, runs=None, k=None, write=True):
                                 "has-empty-rows) observed at step boundaries, probed on every 4th run",
         "faults_injected": inj,
         "program_step_kinds": kinds,
-        "hazard_programs": int(tot.get("hazard_programs", 0)),
-        "stale_alias_divergences_attributed_to_R1": int(tot.get("stale_alias_divergences", 0)),
+        "programs_with_a_write_while_an_unread_selection_of_the_target_is_alive": int(tot.get("hazard_programs", 0)),
+        "stale_alias_divergences_attributed_to_R01": int(tot.get("stale_alias_divergences", 0)),
         "runs_per_hour": int(tot["programs"] / max(wall, 1e-9) * 3600),
         "executions_per_hour": int(tot["executions"] / max(wall, 1e-9) * 3600),
         "workers": pool.n_workers(),
